@@ -267,7 +267,9 @@ func evalServer(c SCase) (fail *kit.Failure, ev map[string]int, sh *shape) {
 		return harnessFail("sync 2: %v", err), ev, sh
 	}
 
+	restoreExcluded := false
 	if ex := sh.exclusionList(); (len(ex) > 0 || sh.sub["counter_dedup_nonempty"]) && !kit.NoExclusions() {
+		restoreExcluded = true
 		for _, e := range ex {
 			ev["excluded:"+e] = 1
 		}
@@ -336,6 +338,43 @@ func evalServer(c SCase) (fail *kit.Failure, ev map[string]int, sh *shape) {
 		return kit.Failf("COMPACT-DIFF", "content attached after compaction differs from the content before at %s", diff), ev, sh
 	}
 	ev["compact_checked"] = 1
+
+	// the revision outlives the compaction: restoring it afterwards (the
+	// document is in its next generation now) still yields its content
+	if !restoreExcluded {
+		if err := setRoot(d2, c.After.YSON().(yson.Object), true); err != nil {
+			return kit.Failf("IMPORT-ERROR", "SetYSON of an accepted literal fails: %v", err), ev, sh
+		}
+		if err := d2.Update(func(r *json.Object, p *presence.Presence) error {
+			r.SetString("afterCompaction", "x")
+			return nil
+		}); err != nil {
+			return harnessFail("edit after compaction: %v", err), ev, sh
+		}
+		if err := cl.Sync(ctx); err != nil {
+			return harnessFail("sync 4: %v", err), ev, sh
+		}
+		err, panicked := guarded(func() error { return revisions.Restore(ctx, s.BE, proj, rev.ID) })
+		s.WaitIdle()
+		if panicked {
+			return kit.Failf("RESTORE-PANIC", "revisions.Restore after a compaction panics: %v\nsnapshot: %s", err, clip(rev.Snapshot)), ev, sh
+		}
+		if err != nil {
+			return kit.Failf("RESTORE-ERROR", "revisions.Restore after a compaction fails: %v\nsnapshot: %s", err, clip(rev.Snapshot)), ev, sh
+		}
+		if err := cl.Sync(ctx); err != nil {
+			return harnessFail("sync 5: %v", err), ev, sh
+		}
+		got, fail := exportYSON(d2)
+		if fail != nil {
+			return fail, ev, sh
+		}
+		if diff := ysonDiff("$", want, got); diff != "" {
+			return kit.Failf("RESTORE-DIFF", "content after revisions.Restore of a compacted document differs from the content at revisions.Create at %s\nsnapshot: %s",
+				diff, clip(rev.Snapshot)), ev, sh
+		}
+		ev["restore_after_compaction_checked"] = 1
+	}
 	return nil, ev, sh
 }
 
